@@ -254,6 +254,11 @@ def run_C11(ctx):
     prof = {"p_fail": 0.05, "nops": (2, 10), "kinds": ["transfer"] * 4 + ["aspirate", "dispense", "distribute", "add", "remove", "misc"]}
     progs = corpus_progs(ctx) + [G.gen_worklist_program(rng, prof) for _ in range(ctx.n(220))]
     stateful(ctx, res, "history", progs, ["history"])
+    # a refused operation in the middle of a script that goes on: earlier history entries must stay what they were
+    prof2 = dict(prof, p_fail=1.0, nops=(1, 4), after_fail=(1, 5),
+                 fail_kinds=["transfer", "aspirate", "dispense", "distribute", "aspirate", "dispense"])
+    progs2 = [G.gen_worklist_program(rng, prof2) for _ in range(ctx.n(120))]
+    stateful(ctx, res, "history-after-refusal", progs2, ["history"], stop_on_error=False)
     return res
 
 
@@ -695,8 +700,9 @@ def run_C19(ctx):
             arr = ("M", r, c, [G.wid(i, j) for i in range(r) for j in range(c)])
         flat = G.Builder.flatF(arr)
         n = rng.choice([0, 1, len(flat) - 1, len(flat), len(flat) + 1, 2 * len(flat), 3 * len(flat), rng.randint(0, 200), -1, proto.Bad(2.5)])
-        if rng.random() < 0.05:
-            arr = ("V", [])
+        if rng.random() < 0.08:
+            # no wells at all: a flat empty list, or an empty 2-D selection (e.g. `trough.wells[:, 2:]` of a 2-column trough)
+            arr = rng.choice([("V", []), ("M", rng.randint(1, 8), 0, []), ("M", 0, rng.randint(1, 3), [])])
             flat = []
         key = (repr(n), proto.dumps(arr))
         if key in seen:
@@ -1032,11 +1038,15 @@ def run_C08(ctx):
     fn_stream(ctx, res, "well_array_helpers", acases)
     # operations naming an unknown well raise without emitting a record
     progs = []
-    for _ in range(ctx.n(60)):
-        b = G.Builder(rng, {})
+    for _ in range(ctx.n(140)):
+        b = G.Builder(rng, {"p_small": 0.5})
         li = rng.randrange(len(b.labs))
         L = b.labs[li]
-        w = rng.choice(["A1", "Z99", "AA01", "a01", G.wid(min(L.n_rows, 25), 0), G.wid(0, L.n_columns), "A001"])
+        some = str(L.wells[rng.randrange(L.wells.shape[0]), rng.randrange(min(L.wells.shape[1], 2))])
+        # besides plainly unknown IDs: an existing ID with one more character (a fixed-width string type would cut it
+        # back to the existing ID), whose loosely parsed column may exist as well ("A011" -> row A, column 11)
+        w = rng.choice(["A1", "Z99", "AA01", "a01", G.wid(min(L.n_rows, 25), 0), G.wid(0, L.n_columns), "A001",
+                        some + "0", some + "1", some + "2", some + " ", some + "x", some + some[-1]])
         if w in L.indices:
             continue
         k = rng.choice(["aspirate", "dispense", "transfer", "distribute"])
@@ -1217,6 +1227,8 @@ def run_C17(ctx):
     try:
         for n in range(ctx.n(250)):
             k = rng.choice([0, 1, 1, 2, 3, 8, 30])
+            if n % 60 == 7:
+                k = rng.choice([260, 300, 1100])     # a whole-plate worklist: still shown and written record by record
             recs = []
             wl = impl.make_wl({"dev": rng.choice(["evo", "fluent", "base"]), "max_volume": F(950)})
             for _ in range(k):
@@ -1545,7 +1557,7 @@ def gen_record_program(rng):
                 elif f == "pos_bad": op["position"] = proto.Bad(rng.choice([1.0, "1", None]))
                 elif f == "vol_neg": op["vol"] = -F(1, 2)
                 elif f == "vol_big": op["vol"] = F(7158279)
-                elif f == "vol_max": op["vol"] = cfg["max_volume"] + F(1, 8)
+                elif f == "vol_max": op["vol"] = cfg["max_volume"] + rng.choice([F(1, 8), F(1, 128), F(1)])
                 elif f == "lc": kw["liquid_class"] = "x;y"
                 elif f == "rid": kw["rack_id"] = ";"
                 elif f == "rid_len": kw["rack_id"] = "i" * 33
@@ -1579,7 +1591,7 @@ def gen_record_program(rng):
                 elif f == "lc": op["liquid_class"] = "a;b"
                 elif f == "label": op[rng.choice(["src_label", "dst_label"])] = rng.choice(["x" * 33, "a;b"])
                 elif f == "vol_neg": op["vol"] = -F(1)
-                elif f == "vol_max": op["vol"] = cfg["max_volume"] + 1
+                elif f == "vol_max": op["vol"] = cfg["max_volume"] + rng.choice([F(1), F(1, 128)])
                 elif f == "pos": op[rng.choice(["src_start", "src_end", "dst_start", "dst_end"])] = -1; op["exclude"] = []
                 elif f == "pos_bad": op[rng.choice(["src_start", "src_end"])] = proto.Bad(1.5)
                 elif f == "rid": op[rng.choice(["src_rack_id", "dst_rack_type"])] = rng.choice(["a;b", "r" * 33])
